@@ -443,6 +443,11 @@ func c08One(c *ctx, inp *bgzfInput, d *Driver, impl *[]string) {
 	if d == nil {
 		return
 	}
+	// the reader half of C01's round trip on every header class (incl. strings >= 512 bytes, which gzip.Reader and
+	// the model both refuse): Member.readStream = the library reader on the produced bytes
+	if len(out) > 0 && (len(out)+len(flat) <= 24000 || c.rnd.coin(1, 10)) {
+		readStreamTie(c, "c08", in, out, ms, 1+c.rnd.intn(3), d, impl)
+	}
 	hargs := h.drvArgs()
 	xfl := xflOf(in.Level)
 	var pairs []string
